@@ -155,7 +155,11 @@ class Space:
 
     def xs(self, rng, nrand):
         br, a, b = self.breaks, self.a, self.bnd
-        pts = list(br) + [np.nextafter(v, a) for v in br[1:]] + [np.nextafter(v, b) for v in br[:-1]]
+        def nxt(v, to):
+            # one ulp next to a breakpoint; next to 0.0 that would be a denormal whose powers underflow (outside the
+            # relative-error model of floats, not a property of the code): use 2^-80 there
+            return float(np.nextafter(v, to)) if v != 0.0 else float(np.sign(to - v)) * 2.0 ** -80
+        pts = list(br) + [nxt(v, a) for v in br[1:]] + [nxt(v, b) for v in br[:-1]]
         pts += [rng.uniform(a, b) for _ in range(nrand)]
         pts += [a + (b - a) * rng.randint(0, 64) / 64.0 for _ in range(2)]
         return np.clip(np.array(pts, float), a, b)
@@ -343,7 +347,6 @@ def check_nu_kernels(chk, drv, sp, rng, nrand):
     xs = list(sp.xs(rng, nrand))
     reqs, impl = [], []
     knr = common.rats(kn)
-    M0 = None
     from scipy.interpolate import BSpline
     n = len(kn) - p - 1
     B = BSpline(kn, np.eye(n), p, extrapolate=False)
@@ -357,9 +360,8 @@ def check_nu_kernels(chk, drv, sp, rng, nrand):
         # oracle: the cell that contains x (last cell at the right end)
         exp = int(np.searchsorted(kn, x, side='right') - 1)
         exp = min(max(exp, p), len(kn) - 2 - p)
-        if sp.discont_ok(x) or True:   # float comparisons with the knots are exact: the decision is well defined
-            if span != exp and sp.discont_ok(x):
-                chk.fail('C07:nu_find_span', 'span index is not the cell containing x (first/last cell at the ends)', case0, exp, span)
+        if span != exp and sp.discont_ok(x):
+            chk.fail('C07:nu_find_span', 'span index is not the cell containing x (first/last cell at the ends)', case0, exp, span)
         if not (p <= span <= len(kn) - 2 - p):
             chk.fail('C07:nu_find_span-range', 'span outside [degree, len(knots)-2-degree]', case0, [p, len(kn) - 2 - p], span)
             continue
